@@ -571,6 +571,26 @@ func c18GenApi(r *vfRand, mode string, adv bool) c18ApiIn {
 		}
 		in.Gs = append(in.Gs, ops)
 	}
+	// identical re-PUTs: an update that carries exactly the kind and body of the latest earlier write of
+	// that name by the same client (or of the initial object) is still a successful mutation: next version
+	for g := range in.Gs {
+		for i := range in.Gs[g] {
+			op := &in.Gs[g][i]
+			if op.Op != "update" || op.Bad != "" || !r.Chance(1, 4) {
+				continue
+			}
+			for _, o := range in.Init {
+				if o.Name == op.Name {
+					op.Kind, op.Body = o.Kind, o.Body
+				}
+			}
+			for j := 0; j < i; j++ {
+				if p := in.Gs[g][j]; p.Name == op.Name && p.Bad == "" && (p.Op == "create" || p.Op == "update") {
+					op.Kind, op.Body = p.Kind, p.Body
+				}
+			}
+		}
+	}
 	// fault injection (cluster double only): one cluster operation of one request fails once
 	if mode != "conc-real" && (r.Chance(1, 3) || adv && r.Bool()) {
 		for try := 0; try < 6; try++ {
